@@ -15,6 +15,12 @@
 (*               60 s: metrics_15s shortcut; 60 s with a line filter: getFunctionOrder at a long range), over   *)
 (*               the range function, over a vector aggregation, next to the comparisons of those; databases:    *)
 (*               every assignment of 0..3 entries per range bucket to each of three series                      *)
+(*   Frag = "B"  results longer than one slice of the ClickHouse getter (LogQLPlan!GetterBatch rows): 12 series *)
+(*               x 10 range buckets, one or two entries per series and bucket, so that the rows of the SQL      *)
+(*               reach the Go post-processors (ZeroEater, FixPeriodPlanner) in two slices whose cut falls      *)
+(*               inside a series; on every planning path (short range, metrics_15s shortcut, long range with a  *)
+(*               line filter), with step = range and step < range, count / rate / bytes functions, a vector     *)
+(*               aggregation that keeps every series and one that merges them (a single slice again)            *)
 (*   Frag = "S"  sampled product cases (SCases)                                                                *)
 (***************************************************************************************************************)
 EXTENDS LogQLPlan, Json, SequencesExt
@@ -178,21 +184,60 @@ QueriesT == IF "T" \notin Frags THEN {} ELSE
     \cup {QT(<<>>, [TopCmp(SumByB(MQ("count_over_time", 4, 4, u), "prefix"), tf, 1, Cmp(o, 14)) EXCEPT !.cmpa = Cmp(">", 6)]) :
             u \in {1, 15}, tf \in TopFns, o \in {">", "<"}}
 
+(*--------------------------------------------- fragment B --------------------------------------------------*)
+(* series j in 0..11: a in {v1, v2} x b in {absent, v1, v2, n1, n2, n3}; range bucket k in 0..NBucketsB-1 starts *)
+(* at tick FromB + 2k.  Entry n (1..12*NBucketsB) is the first entry of series / bucket; the entries after them  *)
+(* are the second entries of a third of the (series, bucket) pairs.  code shifts the pattern.                    *)
+NBucketsB == 10
+FromB == 4
+ToB == FromB + 2 * NBucketsB - 1
+BValsB == <<"", "v1", "v2", "n1", "n2", "n3">>
+SerB(j) == [a |-> IF j % 2 = 0 THEN "v1" ELSE "v2", b |-> BValsB[(j \div 2) + 1]]
+TwoB(j, k, code) == (j + 2 * k + code) % 3 = 0
+DBOfB(code) ==
+    LET n1 == 12 * NBucketsB
+        firsts == [n \in 1..n1 |-> LET k == (n - 1) \div 12
+                                       j == (n - 1) % 12
+                                   IN  MEnt(SerB(j), FromB + 2 * k + ((j + k + code) % 2), 1 + ((j + k) % 2), "log", "plain", NoFld)]
+        seconds == SelectSeq([n \in 1..n1 |-> n], LAMBDA n : TwoB((n - 1) % 12, (n - 1) \div 12, code))
+    IN  firsts \o [i \in 1..Len(seconds) |-> LET k == (seconds[i] - 1) \div 12
+                                                  j == (seconds[i] - 1) % 12
+                                              IN  MEnt(SerB(j), FromB + 2 * k + ((j + k + code + 1) % 2), 1, "log", "plain", NoFld)]
+QB(p, mq) == Q(SelAll, p, FromB, ToB, mq)
+(* the core (every tier): one query per planning path, step < range, a vector aggregation that keeps and one that *)
+(* merges the series; the rest only when every database of the fragment is enumerated (DBMods.B = 1)             *)
+QueriesBCore ==
+    {QB(<<>>, MQ("count_over_time", 2, 2, 1))}
+    \cup {QB(<<>>, MQ("count_over_time", 2, 1, 1))}                                     \* step < range
+    \cup {QB(<<>>, MQ("rate", 2, 2, 15))}                                               \* metrics_15s shortcut
+    \cup {QB(NotF1, MQ("count_over_time", 2, 2, 15))}                                   \* long range, samples table
+    \cup {QB(<<>>, Agg(MQ("count_over_time", 2, 2, 1), "sum", "by", "prefix", {"a", "b"}))}
+    \cup {QB(<<>>, Agg(MQ("count_over_time", 2, 2, 1), "sum", "without", "suffix", {"b"}))}   \* merges: two series
+QueriesBMore ==
+    {QB(<<>>, MQ(fn, 2, 2, 1)) : fn \in {"rate", "bytes_over_time"}}
+    \cup {QB(<<>>, MQ("count_over_time", 2, 2, 15))}
+    \cup {QB(<<>>, Agg(MQ("count_over_time", 2, 2, 15), "sum", "by", "prefix", {"a", "b"}))}
+    \cup {QB(<<>>, [MQ("count_over_time", 2, 2, 1) EXCEPT !.cmpl = Cmp(">", 6)])}        \* keeps the counts of 2
+QueriesB == IF "B" \notin Frags THEN {} ELSE QueriesBCore \cup (IF DBMods["B"] = 1 THEN QueriesBMore ELSE {})
+
 (*--------------------------------------------- enumeration -------------------------------------------------*)
 Tag(f, S) == {[frag |-> f, q |-> q, db0 |-> <<>>] : q \in S}
-QSeq == SetToSeq(Tag("R", QueriesR) \cup Tag("U", QueriesU) \cup Tag("A", QueriesA) \cup Tag("H", QueriesH) \cup Tag("T", QueriesT))
+QSeq == SetToSeq(Tag("R", QueriesR) \cup Tag("U", QueriesU) \cup Tag("A", QueriesA) \cup Tag("H", QueriesH) \cup Tag("T", QueriesT)
+                 \cup Tag("B", QueriesB))
         \o (IF "S" \in Frags THEN (LET sc == SCases IN [i \in DOMAIN sc |-> [frag |-> "S", q |-> sc[i].q, db0 |-> sc[i].db]]) ELSE <<>>)
 DIs(f) == CASE f = "R" -> DIsR
             [] f = "U" -> DIsU
             [] f = "A" -> 1..256
             [] f = "H" -> DIsH
             [] f = "T" -> 1..64
+            [] f = "B" -> 1..3
             [] OTHER -> {1}
 DBAt(cq, di) == CASE cq.frag = "R" -> DBOfR(di \div 64, di % 64)
                   [] cq.frag = "U" -> DBOfU(di \div 512, di % 512, FmtOfQ(cq.q))
                   [] cq.frag = "A" -> DBOfA(di - 1)
                   [] cq.frag = "H" -> DBOfH(di)
                   [] cq.frag = "T" -> DBOfT(di - 1)
+                  [] cq.frag = "B" -> DBOfB(di - 1)
                   [] cq.frag = "S" -> cq.db0
 
 IsCase == idx % 100000 # 0
@@ -221,8 +266,8 @@ DistinctSeries(S) == \A s1 \in S, s2 \in S : s1.lbls = s2.lbls => s1 = s2
 DefinitionWellFormed == IsCase => InstantsOK(exp) /\ DistinctSeries(exp)
 MechanismWellFormed  == IsCase => InstantsOK(pl.series)
 (* no entry outside the widened window contributes to the definition: removing them changes nothing            *)
-OnlyWidenedWindowContributes ==
-    IsCase => LET inside == SelectSeq(c.db, LAMBDA e : WidenedFrom(c.q) <= e.t /\ e.t < WidenedTo(c.q))
+OnlyWidenedWindowContributes ==      \* (fragment B: every entry is inside the window; the re-evaluation is skipped)
+    IsCase /\ c.frag # "B" => LET inside == SelectSeq(c.db, LAMBDA e : WidenedFrom(c.q) <= e.t /\ e.t < WidenedTo(c.q))
               IN  EvalMetric(c.q, inside) = exp
 
 (* the comparison written after topk / bottomk only removes rows of the k-selection: every series and point of    *)
@@ -254,7 +299,12 @@ DevClass ==
 PtOut(p) == [t |-> p.t, num |-> p.v.num, den |-> p.v.den, opt |-> p.opt]
 SerOut(S) == LET sq == SetToSeq(S)
              IN  [i \in 1..Len(sq) |-> [lbls |-> sq[i].lbls, pts |-> LET ps == SetToSeq(sq[i].pts) IN [j \in 1..Len(ps) |-> PtOut(ps[j])]]]
-CaseRec == [frag |-> c.frag, idx |-> idx, q |-> c.q, db |-> c.db, mexp |-> SerOut(exp),
+(* the rows of the SQL result and the slices they arrive in (computed for the fragments where it matters)          *)
+NRows == IF c.frag \in {"B", "S"} THEN Cardinality(PlanMetricRows(c.q, c.db)) ELSE 0
+(* fragment B is about results cut into slices: the cases the last query of the fragment merges into few rows     *)
+(* aside, every case has a cut, and a cut inside a series (no multiple of the rows per series)                    *)
+MultiSlice == IsCase /\ c.frag = "B" /\ c.q.mq.grp # "without" /\ c.q.mq.cmpl.op = "" => Batches(NRows) >= 2 /\ BatchCuts(NRows) # {}
+CaseRec == [frag |-> c.frag, idx |-> idx, q |-> c.q, db |-> c.db, mexp |-> SerOut(exp), nrows |-> NRows,
             dev |-> Differs, plerr |-> pl.err, mpl |-> IF Differs THEN SerOut(pl.series) ELSE <<>>, ordobs |-> OrderObservable]
 Hash == ((idx \div 100000) * 7919 + (idx % 100000) * 10007 + ExportSeed) % 1000003
 Selected == IF Differs THEN ModsDev[c.frag] > 0 /\ Hash % ModsDev[c.frag] = 0
